@@ -522,6 +522,19 @@ def str_split(ctx, args, st):
     return g()
 
 
+@model(r'^(?:core::)?str::<impl str>::(split|split_terminator)::<char>$')
+def str_split_char(ctx, args, st):
+    from .iters import mk_list_iter
+    s = str_of(st, args[0]); c = _char_arg(args[1])
+    if s.facts is not None: raise Unsupported('split on abstract strings')
+    def g():
+        for s2, pieces in split_positions(ctx.ex, st, s.chars, (c,), None):
+            if 'split_terminator' in ctx.callee and pieces and len(pieces[-1]) == 0:
+                pieces = pieces[:-1]
+            yield s2, 'ret', mk_list_iter([s2.ref(StrV(p, 'str')) for p in pieces])
+    return g()
+
+
 @model(r'^(?:core::)?str::<impl str>::contains::<&str>$')
 def str_contains(ctx, args, st):
     s, pat = str_of(st, args[0]), str_of(st, args[1])
